@@ -67,3 +67,28 @@ package search
 //@   mode int
 //@   requires tf != nil && 0 <= i && i < len(tf.termFacets) && 0 <= j && j < len(tf.termFacets) && tf.termFacets[i] != nil && tf.termFacets[j] != nil
 //@   ensures result == (tf.termFacets[i].Count > tf.termFacets[j].Count || (tf.termFacets[i].Count == tf.termFacets[j].Count && tf.termFacets[i].Term < tf.termFacets[j].Term))
+
+// ---------------------------------------------------------------------------
+// C10: every facet builder that is registered receives the values of its field
+// ---------------------------------------------------------------------------
+
+// the field a facet builder counts (a fixed attribute of the builder)
+//@ uf fieldOf(b FacetBuilder) string
+//@ iface FacetBuilder.Field(b)
+//@   mode int
+//@   pure
+//@   requires b != nil
+//@   ensures result == fieldOf(b)
+
+// Add registers the builder under its name, as the last builder of the dispatch list of its field
+// (UpdateVisitor hands a value of field f to every builder in facetsByField[f]) - whether or not
+// other builders already count that field - and lists the field as required.
+//@ func FacetsBuilder.Add
+//@   props C10
+//@   mode int
+// the dispatch lists do not share storage with the list of all builders (each grows by its own append)
+//@   requires fb != nil && facetBuilder != nil && implies(fb.facetsByField != nil && in(fb.facetsByField, fieldOf(facetBuilder)), cap(fb.facetsByField[fieldOf(facetBuilder)]) == 0 || cap(fb.facets) == 0 || base(fb.facetsByField[fieldOf(facetBuilder)]) != base(fb.facets)) && (cap(fb.fields) == 0 || cap(fb.facetNames) == 0 || base(fb.fields) != base(fb.facetNames))
+//@   modifies fb.facetsByField, map(fb.facetsByField), fb.facetNames, fb.facetNames[*], fb.facets, fb.facets[*], fb.fields, fb.fields[*], mem(FacetBuilder)
+//@   ensures len(fb.facets) == old(len(fb.facets)) + 1 && fb.facets[len(fb.facets)-1] == facetBuilder && len(fb.facetNames) == old(len(fb.facetNames)) + 1 && fb.facetNames[len(fb.facetNames)-1] == name
+//@   ensures len(fb.fields) == old(len(fb.fields)) + 1 && fb.fields[len(fb.fields)-1] == fieldOf(facetBuilder)
+//@   ensures in(fb.facetsByField, fieldOf(facetBuilder)) && len(fb.facetsByField[fieldOf(facetBuilder)]) > 0 && fb.facetsByField[fieldOf(facetBuilder)][len(fb.facetsByField[fieldOf(facetBuilder)])-1] == facetBuilder
